@@ -5,7 +5,7 @@ from __future__ import annotations
 import ast
 import re
 
-from ..core import AnalysisError, FuncInfo, call_name, unparse, walk_no_nested
+from ..core import seq, AnalysisError, FuncInfo, call_name, unparse, walk_no_nested
 from ..pattern import _parse, body_is, find, find_expr, has, has_expr, m_node
 from ..report import Ctx
 
@@ -231,7 +231,7 @@ def run(ctx: Ctx) -> None:
             arrays = {p.arg for p in a.args + a.kwonlyargs if p.annotation is not None and re.search(r'ndarray|np\.array', unparse(p.annotation))}
             for n in walk_no_nested(f.node):
                 if isinstance(n, ast.AugAssign) and isinstance(n.target, ast.Name) and n.target.id in arrays:
-                    rebound = [x for x in walk_no_nested(f.node) if isinstance(x, ast.Assign) and any(unparse(t) == n.target.id for t in x.targets) and x.lineno < n.lineno]
+                    rebound = [x for x in walk_no_nested(f.node) if isinstance(x, ast.Assign) and any(unparse(t) == n.target.id for t in x.targets) and seq(x) < seq(n)]
                     ctx.add('C18.R2', f'{f.qualname}:{n.target.id}', bool(rebound), (f.file, n.lineno), f'{unparse(n)} on a local copy' if rebound else f'{unparse(n)} modifies the caller\'s array {n.target.id} in place: the next use of the same draw sees other values', unparse(n))
                 elif isinstance(n, (ast.Assign, ast.AugAssign)):
                     for t in (n.targets if isinstance(n, ast.Assign) else [n.target]):
